@@ -1,5 +1,5 @@
-\* small instance run with -coverage 1: every action must be taken (vacuity guard)
-SPECIFICATION Spec
+\* liveness: under weak fairness of every thread's steps every call returns (Progress)
+SPECIFICATION FairSpec
 CONSTANT Model = "nn"
 CONSTANT Threads <- MCThreads
 CONSTANT Cells <- MCCells
@@ -10,4 +10,5 @@ INVARIANT TypeOK
 INVARIANT Agreement
 INVARIANT ExactlyOneSetSucceeds
 PROPERTY WriteOnce
+PROPERTY Progress
 CHECK_DEADLOCK TRUE
